@@ -105,7 +105,11 @@ func (s *scanner) Length() uint {
 		if lex.Type() == lexeme.EndTop {
 			// Found character after the end of the schema and spaces. Ex: char
 			// "s" in "{} some text".
-			length = uint(lex.End()) - 1
+			// The character may also directly follow the value (ex: char "s" in
+			// "{}some text" or "1some text"), so never cut the last lexeme.
+			if end := uint(lex.End()); end > length {
+				length = end - 1
+			}
 			break
 		}
 		length = uint(lex.End()) + 1
